@@ -49,8 +49,8 @@ class Ctx:
         self.workdir: Optional[Path] = None
         self.handler = None
         self.opts: Dict[str, Any] = case.get("opts", {})
-        self.hostile = any(isinstance(x, dict) and "hostile" in x for x in case.get("controller", {}).get("stack", []))
-        self.builtin_only = all(isinstance(x, str) and x in ("Dispatcher", "ChargingFleetManager") for x in case.get("controller", {}).get("stack", ["Dispatcher", "ChargingFleetManager"]))
+        self.hostile = any(isinstance(x, dict) and "hostile" in x for x in (case.get("controller") or {}).get("stack", []))
+        self.builtin_only = all(isinstance(x, str) and x in ("Dispatcher", "ChargingFleetManager") for x in (case.get("controller") or {}).get("stack", ["Dispatcher", "ChargingFleetManager"]))
 
     def violate(self, prop: str, mechanism: str, msg: str, **witness):
         key = (prop, mechanism)
@@ -208,7 +208,7 @@ def run_trace(case: Dict[str, Any]) -> Dict[str, Any]:
     result["sets"] = {k: sorted(map(str, v)) for k, v in ctx.sets.items()}
     result["hook_calls"] = dict(hooks.REC.calls)
     result["summary"] = spec_summary(ctx.spec) if ctx.spec else {}
-    result["summary"]["controller"] = case.get("controller", {}).get("stack", "builtin")
+    result["summary"]["controller"] = (case.get("controller") or {}).get("stack", "builtin")
     result["summary"]["steps"] = case.get("steps")
     result["info"] = ctx.info
     result["wall_s"] = round(time.time() - t0, 3)
